@@ -282,7 +282,9 @@ def h_compositions(ctx):
         warnings.simplefilter("ignore")
         if cfg["kind"] == "chain":
             d = ctx.reals("d", npts)
-            est = vd.Chain([("trend", vd.Trend(1)), ("spline", vd.Spline())])
+            # step names are labels only: two steps may carry the same one
+            names = ("step", "step") if cfg.get("same_names") else ("trend", "spline")
+            est = vd.Chain([(names[0], vd.Trend(1)), (names[1], vd.Spline())])
             est.fit((e, n), d)
             pred = est.predict((e, n))
             mag = 1.0 if ctx.sym else max(abs(float(v)) for v in d)
@@ -380,5 +382,5 @@ HARNESSES = [
         engine={"oneshot": True, "timeout_ms": 120000},
         timeout_s=900,
     ),
-    Harness("compositions", h_compositions, {"quick": [{"kind": "chain", "layout": "generic4"}, {"kind": "vector", "layout": "generic4"}, {"kind": "chain_kn", "layout": "generic4"}, {"kind": "chain_vectors", "layout": "generic4"}]}, bounds="Chain(Trend(1), Spline), Vector(Spline, Linear), Chain(Trend(1), KNeighbors(1)) on 2x2 arrays with weights, Chain(Vector(Trend, Trend), Vector(Linear, Cubic)) on the generic 4-point layout with symbolic data", extra_globals=_globals, engine={"oneshot": True}),
+    Harness("compositions", h_compositions, {"quick": [{"kind": "chain", "layout": "generic4"}, {"kind": "chain", "layout": "generic4", "same_names": True}, {"kind": "vector", "layout": "generic4"}, {"kind": "chain_kn", "layout": "generic4"}, {"kind": "chain_vectors", "layout": "generic4"}]}, bounds="Chain(Trend(1), Spline), Vector(Spline, Linear), Chain(Trend(1), KNeighbors(1)) on 2x2 arrays with weights, Chain(Vector(Trend, Trend), Vector(Linear, Cubic)) on the generic 4-point layout with symbolic data", extra_globals=_globals, engine={"oneshot": True}),
 ]
